@@ -267,11 +267,11 @@ Section Rec.
       nr.
     Qed.
 
-    Lemma copy_regular_reads s s' r src target ino : Ctx (s_fs s) -> SPN src ->
-      copy_regular c src target ino s = (s', r) -> rok s -> rok s'.
+    Lemma copy_regular_reads s s' r src target ino multi : Ctx (s_fs s) -> SPN src ->
+      copy_regular c src target ino multi s = (s', r) -> rok s -> rok s'.
     Proof.
-      intros C Hs H Rk. unfold copy_regular in H. rewrite bind_run in H. unfold get_fs at 1 in H.
-      destruct (N.ltb 1 (nlink (s_fs s) ino)); [|eapply copy_file_reads; eauto].
+      intros C Hs H Rk. unfold copy_regular in H.
+      destruct multi; [|eapply copy_file_reads; eauto].
       rewrite bind_run in H. unfold get_links at 1 in H.
       destruct (assoc_N ino (s_links s)) as [first|].
       - revert H. match goal with |- ?m s = _ -> _ => intros H; eapply (rok_nr m); [|exact H|exact Rk] end. nr.
